@@ -44,7 +44,8 @@ BORROW = {
     # it only subdivides -- which is what these rules decide
     "C08": [("C01", "r01_13")] + SPLIT + [("C15", "r15_2"), ("C18", "r18_10")],
     # history independence: operands are split (and their pieces cleaned) in place by the operators
-    "C10": [("C01", "r01_13"), ("C15", "r15_1"), ("C15", "r15_5")] + CLEAN + CHAIN,
+    # ... and == must not see the subdivision they leave behind (R07.8: curves with redundant vertices)
+    "C10": [("C01", "r01_13"), ("C15", "r15_1"), ("C15", "r15_5"), ("C07", "r07_8")] + CLEAN + CHAIN,
     "C14": [("C07", "r07_11"), ("C18", "r18_13")] + ALGEBRA,
     # the complement of a shape integrates the reversed boundary: reversal must be exact for every degree
     "C04": ALGEBRA + [("C18", "r18_13"), ("C05", "r05_2")],
@@ -54,13 +55,13 @@ BORROW = {
     # ... and T(A) is computed by the library's own move / rotate / scale
     "C12": ALGEBRA + [("C03", "r03_1"), ("C09", "r09_1"), ("C09", "r09_2"), ("C09", "r09_3"), ("C09", "r09_4")],
     # every constructor ends in the segments setter, which degree-reduces each segment (BezierCurve.clean)
-    "C17": [("C13", "r13_4"), ("C18", "r18_13"), ("C15", "r15_2")],
+    "C17": [("C13", "r13_4"), ("C18", "r18_13"), ("C15", "r15_2"), ("C15", "r15_3")],   # == of two descriptions unites pieces
     "C18": ALGEBRA,
     # exact crossing parameters come from the exact line solver; they become exact vertices only if the split addresses
     # the segment they were computed on and cuts it at them
     "C13": [("C14", "r14_3"), ("C14", "r14_5"), ("C15", "r15_4"), ("C15", "r15_5"), ("C18", "r18_10")],
     # factories build their curve through from_vertices / the segments setter
-    "C16": CHAIN + SIGN + VERTICES,
+    "C16": CHAIN + SIGN + VERTICES + [("C02", "r02_1"), ("C02", "r02_2")],     # ... and are observed through `p in shape`
     # directly constructed composites answer containment like the operator-built ones
     "C19": [("C03", "r03_2"), ("C03", "r03_2b"), ("C03", "r03_3")],
     # fills and outlines are decided by the orientation sign
